@@ -1,7 +1,8 @@
 (* Errs: executable model of how an error value travels from a handler to the caller
    (C14).  Anchors: code.go (Code.String, Code.Err, codeError, ErrorCode), error.go
    (Error, Error.Error, WithData, Errorf), server.go (invoke, tasks.responses),
-   json.go (jmessage.toJSON: json.Marshal of the *Error), base.go (filterError,
+   json.go (jmessage.toJSON: json.Marshal of the *Error, without its data when they do not
+   encode: fix F16/F17), base.go (filterError,
    Response.wait), client.go (Call).  Definitions only; proofs are in ErrsProofs.v. *)
 From Coq Require Import List NArith ZArith Bool Ascii String.
 From JV Require Import Bytes Msg ErrsJson.
@@ -229,12 +230,24 @@ Definition wire_data (d : bytes) : option bytes :=
   | _ => compact d
   end.
 
-(* None: Marshal fails, encode returns the error and nothing is sent *)
-Definition transit (w : werr) : option werr :=
+(* jmessage.toJSON.  json.Marshal of the *Error fails when its Data is not JSON.  Since fix
+   F16/F17 (switch [fix16]) toJSON then encodes the error object WITHOUT its data (same code,
+   same message), so a reply is always produced.  Before the fix toJSON returned Marshal's
+   error: None = encode fails and nothing is sent (not this reply, nor any other reply of
+   the same batch). *)
+Definition transit_gen (fix16 : bool) (w : werr) : option werr :=
   match wire_data (we_data w) with
   | Some d' => Some {| we_code := we_code w; we_msg := sanitize_utf8 (we_msg w); we_data := d' |}
-  | None => None
+  | None =>
+      if fix16 then Some {| we_code := we_code w; we_msg := sanitize_utf8 (we_msg w); we_data := [] |}
+      else None
   end.
+Definition transit : werr -> option werr := transit_gen true.
+
+(* what arrives for the error object w (since fix F16 something always does) *)
+Definition sent (w : werr) : werr :=
+  {| we_code := we_code w; we_msg := sanitize_utf8 (we_msg w);
+     we_data := match wire_data (we_data w) with Some d' => d' | None => [] end |}.
 
 (* ---- client side: Response.wait, Call, filterError ---------------------------------- *)
 
@@ -246,22 +259,48 @@ Definition from_wire (w : werr) : gerr :=
 Inductive outcome :=
 | OResult (raw : bytes)     (* Call returns a response and a nil error *)
 | OErr (e : gerr)           (* Call returns this error *)
-| OLost.                    (* no reply reaches the client *)
+| OLost.                    (* no reply reaches the client (possible only before fix F16) *)
 
-(* what the caller gets for a task that ended with (t.val, t.err) *)
-Definition settle (t : bytes * gerr) : outcome :=
+(* what the server puts on the wire for one call *)
+Inductive wreply :=
+| WResult (raw : bytes)
+| WError (w : werr)
+| WLost.                    (* nothing is sent *)
+
+Definition deliver_gen (fix16 : bool) (t : bytes * gerr) : wreply :=
   match respond false t with
-  | None => OLost
-  | Some (RpResult raw) => OResult raw
+  | None => WLost
+  | Some (RpResult raw) => WResult raw
   | Some (RpError w) =>
-      match transit w with
-      | Some w' => OErr (from_wire w')
-      | None => OLost
+      match transit_gen fix16 w with
+      | Some w' => WError w'
+      | None => WLost
       end
   end.
+Definition deliver : bytes * gerr -> wreply := deliver_gen true.
+
+(* what the caller gets for a task that ended with (t.val, t.err) *)
+Definition settle_gen (fix16 : bool) (t : bytes * gerr) : outcome :=
+  match deliver_gen fix16 t with
+  | WResult raw => OResult raw
+  | WError w' => OErr (from_wire w')
+  | WLost => OLost
+  end.
+Definition settle : bytes * gerr -> outcome := settle_gen true.
 
 (* one call: the handler returns (value, e), the value marshals as r *)
-Definition call (r : hres) (e : gerr) : outcome := settle (invoke false r e).
+Definition call_gen (fix16 : bool) (r : hres) (e : gerr) : outcome := settle_gen fix16 (invoke false r e).
+Definition call : hres -> gerr -> outcome := call_gen true.
+
+(* a batch of calls (Client.Batch): tasks.responses builds one reply per call and
+   jmessages.toJSON encodes them into ONE record; if the encoding of one member fails,
+   deliver fails and nothing at all is sent (F17: the siblings lose their replies too).
+   The replies as they are on the wire (Batch does not apply filterError). *)
+Definition is_wlost (w : wreply) : bool := match w with WLost => true | _ => false end.
+Definition batch_gen (fix16 : bool) (cs : list (hres * gerr)) : list wreply :=
+  let ws := map (fun c => deliver_gen fix16 (invoke false (fst c) (snd c))) cs in
+  if existsb is_wlost ws then map (fun _ => WLost) ws else ws.
+Definition batch : list (hres * gerr) -> list wreply := batch_gen true.
 
 (* ---- the request's server-side context ------------------------------------------------ *)
 
@@ -308,7 +347,9 @@ Definition notify_gen (fix15 : bool) (r : hres) (e : gerr) : option werr :=
   end.
 Definition notify : hres -> gerr -> option werr := notify_gen true.
 
-(* the domain on which a reply is produced at all *)
+(* the domain on which a reply was produced at all BEFORE fix F16 (call_gen false): every
+   error but a top-level *Error whose Data is not JSON.  Since the fix a reply is always
+   produced (ErrsProofs.call_never_lost). *)
 Definition deliverable (e : gerr) : bool :=
   match e with
   | EJrpc _ _ d => match wire_data d with Some _ => true | None => false end
@@ -319,10 +360,13 @@ Definition is_top_jrpc (e : gerr) : bool :=
   match e with EJrpc _ _ _ => true | _ => false end.
 
 (* the exact domain on which the caller's ErrorCode equals the handler's (for a non-nil
-   error): a reply is produced, and the error is not one that ErrorCode classifies as
-   NoError unless it is a *Error passed on as it is *)
+   error): the error is not one that ErrorCode classifies as NoError unless it is a *Error
+   passed on as it is *)
 Definition code_dom (e : gerr) : bool :=
-  deliverable e && (is_top_jrpc e || negb (error_code e =? NoError)).
+  is_top_jrpc e || negb (error_code e =? NoError).
+
+(* the same before fix F16: a reply had to be produced, too *)
+Definition code_dom_pre16 (e : gerr) : bool := deliverable e && code_dom e.
 
 (* ---- Error.WithData over an explicit heap --------------------------------------------- *)
 
